@@ -370,9 +370,9 @@ func geoGen(rng *proto.RNG, tier string, shard, nshards int, w *bufio.Writer) {
 	}
 	chunkEmit(e, lines, 400)
 	// (iii) random structured
-	nRand := 150
+	nRand := 400
 	if thorough {
-		nRand = 2500
+		nRand = 4000
 	}
 	for i := 0; i < nRand; i++ {
 		var ls []string
@@ -536,9 +536,9 @@ func geonumGen(rng *proto.RNG, tier string, shard, nshards int, w *bufio.Writer)
 		}
 	}
 	chunkEmit(e, lines, 400)
-	nRand := 150
+	nRand := 400
 	if thorough {
-		nRand = 2500
+		nRand = 4000
 	}
 	for i := 0; i < nRand; i++ {
 		var ls []string
